@@ -35,7 +35,7 @@ SHRINK = {'C03': (60, 25), 'C02': (60, 40)}
 WALL_LIMIT = {('C03', 'quick'): 240, ('C03', 'thorough'): 3000, ('C02', 'quick'): 240, ('C02', 'thorough'): 240}      # one re-execution = ~20 forked crawls
 PROBES = {'C03': ['kill_points_total', 'kill_at_sql', 'kill_at_commit', 'kill_at_request', 'kill_at_delivery', 'kill_before_first_request',
                   'kill_with_in_progress_rows', 'kill_between_status_and_children', 'second_kill', 'resumed_runs', 'concurrency>1',
-                  'workload_fully_enumerated', 'run2_refetch_of_in_progress', 'database_uri', 'sitemaps', 'sitemaps_skipped_start', 'ftp_crawl']}
+                  'workload_fully_enumerated', 'run2_refetch_of_in_progress', 'database_uri', 'sitemaps', 'sitemaps_skipped_start', 'ftp_crawl', 'transient_errors', 'kill_with_error_rows']}
 INFO = {'C03': {
     'rule': 'workload = generated site graph (as C01, depth unlimited) x concurrency 1..3 x schedule; per workload the kill instants '
             '(every SQL statement boundary, every commit boundary, every server request, every delivered segment) are enumerated '
@@ -117,6 +117,19 @@ def child_run(tape_values, site, argv, concurrency, sandbox, logpath, resultpath
             net.on_delivery = lambda conn, payload: _instant('delivery')
             if getattr(site, 'ftp_tree', None) is not None:
                 ftpcrawl.FtpTreeServer(h, net, site.ftp_tree, mlsd=site.ftp_mlsd)
+            for res, n, kind in getattr(site, 'flaky', []):
+                st = {'left': n}
+
+                def beh(conn, entry, rs, st=st, kind=kind):
+                    if st['left'] > 0:          # (counted per process: after a kill the server is as moody as before)
+                        st['left'] -= 1
+                        if kind == '503':
+                            server.send(conn, 503, 'Busy', [('Content-Type', 'text/plain')], b'busy')
+                        else:
+                            conn.reset()
+                    else:
+                        server.respond_resource(conn, rs, entry)
+                server.behaviour[(res.origin.key(), res.target)] = beh
         out = crawl.run_app(tape, r, site, argv, concurrency, sandbox, setup=setup, max_callbacks=max_callbacks)
         res = {'exit': out['exit'], 'hang': out.get('hang'), 'exception': out.get('exception'), 'crashed': out['crashed'],
                'instants': _state['count'], 'kinds': _state['kinds'], 'sim_time': r.sim_time, 'callbacks': r.callbacks}
@@ -200,6 +213,14 @@ def run(tape, prop, tier):
             nhosts = tape.choice((1, 2), 'site.nhosts')
             site, starts, pages, assets, redirects = refsite.gen_site(tape, nhosts=nhosts, npages=tape.between(3, 7, 'site.npages'),
                                                                      with_redirects=tape.chance(1, 3, 'site.redirects'))
+        site.flaky = []
+        if prop == 'C03' and not ftp and tape.chance(1, 3, 'site.flaky'):
+            # transient failures: the URL is recorded 'error' and retried after the other URLs - or after a kill and rerun
+            cand = [p for p in pages if p.origin.key() == starts[0].origin.key()]
+            for _ in range(tape.between(1, 2, 'site.flaky.n')):
+                f = cand[tape.draw(len(cand), 'site.flaky.which')]
+                site.flaky.append((f, tape.choice((1, 1, 2), 'site.flaky.times'), tape.choice(('503', 'reset'), 'site.flaky.kind')))
+            r.probes['transient_errors'] += 1
         sitemaps = prop == 'C03' and not ftp and tape.chance(1, 4, 'opt.sitemaps')
         if sitemaps:
             # --sitemaps: every start URL queues /robots.txt and /sitemap.xml of its host BEFORE it is fetched; pages that
@@ -275,7 +296,8 @@ def run(tape, prop, tier):
         res0 = _load(os.path.join(sb0, 'result.json'))
         if code != 0 or res0 is None or res0.get('harness_exception'):
             raise RuntimeError('uninterrupted run failed in the harness: code %r %r' % (code, res0))
-        if res0.get('hang') or res0.get('exception') or res0.get('exit') != 0:
+        ok_exits = (0, 4, 8) if site.flaky else (0,)       # transient 5xx / resets are counted in the exit status
+        if res0.get('hang') or res0.get('exception') or res0.get('exit') not in ok_exits:
             r.violate(P, 'uninterrupted-run-failed', 'run0', 'exit %r hang %r exception %r' % (res0.get('exit'), res0.get('hang'), (res0.get('exception') or '')[-400:]))
             return r
         N = res0['instants']
@@ -322,6 +344,8 @@ def run(tape, prop, tier):
             req1 = read_log(os.path.join(sb, 'req1.log'))
             done1 = {canon(x['url']) for x in rows1 if x['status'] in ('done', 'skipped')}
             inprog1 = [x for x in rows1 if x['status'] == 'in_progress']
+            if any(x['status'] == 'error' for x in rows1):
+                r.probes['kill_with_error_rows'] += 1
             if inprog1:
                 r.probes['kill_with_in_progress_rows'] += 1
                 landed_in_progress = True
@@ -353,7 +377,7 @@ def run(tape, prop, tier):
                 if res2.get('hang'):
                     r.violate(P, 'resume-hangs', kind, '%s: the resumed run does not terminate: %s' % (where, res2['hang'][:600]))
                     resumed_ok = False
-                elif res2.get('exception') or res2.get('crashed') or res2.get('exit') != 0:
+                elif res2.get('exception') or res2.get('crashed') or res2.get('exit') not in ok_exits:
                     r.violate(P, 'resume-fails', kind, '%s: the resumed run ended with exit %r crashed %r %s'
                               % (where, res2.get('exit'), res2.get('crashed'), (res2.get('exception') or '')[-300:]))
                     resumed_ok = False
